@@ -261,7 +261,7 @@ func runExchange(spec exchangeSpec) exchangeResult {
 		if req.Body != nil && req.Body != http.NoBody && req.ContentLength != 0 {
 			req.Body = &orderedBody{rc: req.Body, written: func() { reqWrittenOnce.Do(func() { close(reqWritten) }); probedOnce.Do(func() { close(probed) }) },
 				probed: func() { probedOnce.Do(func() { close(probed) }) },
-				late: spec.lateProbe, responseStarted: func() bool { return cc != nil && cc.received() > 0 }, giveUp: releaseBackend,
+				late:   spec.lateProbe, responseStarted: func() bool { return cc != nil && cc.received() > 0 }, giveUp: releaseBackend,
 				imposed: func() { mu.Lock(); res.lateProbes++; mu.Unlock() }}
 		} else {
 			reqWrittenOnce.Do(func() { close(reqWritten) })
